@@ -3,6 +3,8 @@ package sched
 import (
 	"fmt"
 	"io/ioutil"
+	"path/filepath"
+	"strings"
 	"time"
 
 	"github.com/taskctl/taskctl/pkg/runner"
@@ -45,6 +47,7 @@ func RealBarrier(env *core.Env, rep *core.Report, rounds int) int {
 			// down hooks (and, for k >= 3, a task-level before and after hook): sharing a context must
 			// not serialise them either
 			var opts []runner.Opts
+			hookLog := ""
 			withCtx := r%2 == 0
 			if withCtx {
 				t.Context = "shared-ctx"
@@ -54,8 +57,12 @@ func RealBarrier(env *core.Env, rep *core.Report, rounds int) int {
 				for _, st := range stages {
 					st.Task.Context, st.Task.Before, st.Task.After = t.Context, t.Before, t.After
 				}
+				// the context's before hook takes a moment and leaves start / end markers: the hooks of
+				// tasks that run together overlap (some start is followed by another start, not by its end)
+				hookLog = filepath.Join(d, "hooks")
+				cb := fmt.Sprintf("/bin/echo start >> %s; sleep 0.15; /bin/echo end >> %s", hookLog, hookLog)
 				opts = append(opts, runner.WithContexts(map[string]*runner.ExecutionContext{
-					"shared-ctx": runner.NewExecutionContext(nil, "", variables.NewVariables(), []string{"true"}, []string{"true"}, []string{"true"}, []string{"true"}),
+					"shared-ctx": runner.NewExecutionContext(nil, "", variables.NewVariables(), []string{"true"}, []string{"true"}, []string{cb}, []string{"true"}),
 				}))
 			}
 			tr, _ := runner.NewTaskRunner(opts...)
@@ -75,6 +82,20 @@ func RealBarrier(env *core.Env, rep *core.Report, rounds int) int {
 			var sts []string
 			for _, s := range stages {
 				sts = append(sts, statusName[s.ReadStatus()])
+			}
+			if hookLog != "" && returned && serr == nil {
+				bs, _ := ioutil.ReadFile(hookLog)
+				seq := strings.Fields(string(bs))
+				overlap := false
+				for j := 0; j+1 < len(seq); j++ {
+					overlap = overlap || (seq[j] == "start" && seq[j+1] == "start")
+				}
+				if !overlap {
+					rep.Add(core.Finding{Prop: "C04", Key: "C04:real-runner:context-hooks-of-independent-stages-do-not-overlap",
+						What:   fmt.Sprintf("%d independent stages sharing a context: the context's before hooks (150 ms each) ran strictly one after the other: %v", k, seq),
+						Detail: map[string]interface{}{"stages": k}})
+					return n
+				}
 			}
 			if !returned || serr != nil {
 				rep.Add(core.Finding{Prop: "C04", Key: "C04:real-runner:independent-stages-do-not-overlap",
